@@ -12,3 +12,5 @@ open Golem.Props.C16
 #print axioms error_stops_visit
 #print axioms error_stops_visit_at
 #print axioms recorded_trace_well_formed
+#print axioms bracketed_counts
+#print axioms enters_eq_leaves
